@@ -251,17 +251,20 @@ impl LazyRaw {
         }
     }
 
-    fn clone_lazyraw(&self) -> std::result::Result<LazyRaw, Parsed> {
-        let parsed = self.parsed.load(Ordering::Relaxed);
-        if parsed.is_null() {
-            Ok(LazyRaw {
-                raw: self.raw.clone(),
-                parsed: AtomicPtr::new(std::ptr::null_mut()),
-            })
+    // the clone keeps the raw text (it must serialize verbatim, like the original) and gets its
+    // own copy of the cached one-level parse
+    fn clone_lazyraw(&self) -> LazyRaw {
+        let parsed = self.parsed.load(Ordering::Acquire);
+        let parsed = if parsed.is_null() {
+            std::ptr::null_mut()
         } else {
             // # Safety
             // the pointer is immutable here, and we can clone it
-            Err(unsafe { (*parsed).clone() })
+            Box::into_raw(Box::new(unsafe { (*parsed).clone() }))
+        };
+        LazyRaw {
+            raw: self.raw.clone(),
+            parsed: AtomicPtr::new(parsed),
         }
     }
 }
@@ -280,10 +283,7 @@ impl LazyPacked {}
 impl Clone for LazyPacked {
     fn clone(&self) -> Self {
         match self {
-            Self::Raw(raw) => match raw.clone_lazyraw() {
-                Ok(raw) => Self::Raw(raw),
-                Err(v) => Self::Parsed(v),
-            },
+            Self::Raw(raw) => Self::Raw(raw.clone_lazyraw()),
             Self::NonEscStrRaw(s) => Self::NonEscStrRaw(s.clone()),
             Self::Parsed(v) => Self::Parsed(v.clone()),
         }
